@@ -1,5 +1,5 @@
 //! Simulated monotonic clock with the subset of `std::time::Instant` the library uses.
-use std::ops::{Add, Sub};
+use std::ops::{Add, AddAssign, Sub, SubAssign};
 use std::time::Duration;
 
 #[derive(Copy, Clone, PartialEq, Eq, PartialOrd, Ord, Debug, Hash)]
@@ -28,6 +28,9 @@ impl Instant {
     pub fn checked_add(&self, d: Duration) -> Option<Instant> {
         self.0.checked_add(dur_ns(d)).map(Instant)
     }
+    pub fn checked_sub(&self, d: Duration) -> Option<Instant> {
+        self.0.checked_sub(dur_ns(d)).map(Instant)
+    }
     pub fn as_nanos(&self) -> u64 {
         self.0
     }
@@ -49,5 +52,15 @@ impl Sub<Instant> for Instant {
     type Output = Duration;
     fn sub(self, o: Instant) -> Duration {
         self.duration_since(o)
+    }
+}
+impl AddAssign<Duration> for Instant {
+    fn add_assign(&mut self, d: Duration) {
+        *self = *self + d;
+    }
+}
+impl SubAssign<Duration> for Instant {
+    fn sub_assign(&mut self, d: Duration) {
+        *self = *self - d;
     }
 }
